@@ -34,8 +34,10 @@ pub mod c09;
 pub mod c10;
 pub mod c11;
 pub mod c13;
+pub mod c15;
 pub mod c17;
 pub mod c18;
+pub mod c20;
 
 pub fn run(property: &str, tier: Tier, seed: u64) -> Option<MonOut> {
     match property {
@@ -49,8 +51,10 @@ pub fn run(property: &str, tier: Tier, seed: u64) -> Option<MonOut> {
         "C10" => Some(c10::run(tier, seed)),
         "C11" => Some(c11::run(tier, seed)),
         "C13" => Some(c13::run(tier, seed)),
+        "C15" => Some(c15::run(tier, seed)),
         "C17" => Some(c17::run(tier, seed)),
         "C18" => Some(c18::run(tier, seed)),
+        "C20" => Some(c20::run(tier, seed)),
         _ => None,
     }
 }
